@@ -179,7 +179,14 @@ impl StreamId {
             }
         }
         
-        // Same millisecond, increment sequence
+        // Same millisecond, increment sequence. When the sequence is exhausted the next
+        // greater ID is the first one of the following millisecond (seq + 1 would overflow
+        // and, in release builds, wrap to an ID below the last one)
+        if last_seq.load(Ordering::Relaxed) == u64::MAX && prev_millis < u64::MAX {
+            last_millis.store(prev_millis + 1, Ordering::Relaxed);
+            last_seq.store(0, Ordering::Relaxed);
+            return StreamId::new(prev_millis + 1, 0);
+        }
         let seq = last_seq.fetch_add(1, Ordering::Relaxed);
         StreamId::new(prev_millis, seq + 1)
     }
